@@ -138,7 +138,18 @@ static void scen_c06(int bases, int prefix_ops, int budget) {
         Blob perm = {0}, vol = {0}; unsigned char *p = NULL; uint32_t n = 0;
         if (TPMLIB_GetState(TPMLIB_STATE_PERMANENT, &p, &n)) die("C06 getstate"); blob_set(&perm, p, n); free(p); p = NULL;
         if (TPMLIB_GetState(TPMLIB_STATE_VOLATILE, &p, &n)) die("C06 getstate"); blob_set(&vol, p, n); free(p);
-        tr("base perm_len=%u vol_len=%u", perm.n, vol.n);
+        /* fields the harness can locate: the context slot mask (a value the unmarshal code restricts to two legal ones) is found by
+           taking the volatile blob of the running TPM with each of the two legal values; other bytes differ too (the clock): the field
+           is where ff ff stands against 00 ff. Every other value must be refused, and what is accepted must work. */
+        long slot_at = -1;
+        { unsigned m0 = verif_get_slotmask(); unsigned char *q1 = NULL, *q2 = NULL; uint32_t l1 = 0, l2 = 0; int nd = 0;
+          verif_set_slotmask(0xffff); TPM_RESULT g1 = TPMLIB_GetState(TPMLIB_STATE_VOLATILE, &q1, &l1);
+          verif_set_slotmask(0x00ff); TPM_RESULT g2 = TPMLIB_GetState(TPMLIB_STATE_VOLATILE, &q2, &l2); verif_set_slotmask(m0);
+          if (!g1 && !g2 && l1 == l2 && l1 == vol.n && l1 > 42)
+              for (uint32_t k = 0; k + 21 < l1; k++) if (q1[k] == 0xff && q1[k + 1] == 0xff && q2[k] == 0x00 && q2[k + 1] == 0xff) { if (slot_at < 0) slot_at = k; nd++; }
+          if (nd != 1) slot_at = -1;
+          free(q1); free(q2); }
+        tr("base perm_len=%u vol_len=%u slotmask_at=%ld", perm.n, vol.n, slot_at);
         /* unmodified blobs must be accepted */
         c06_try(&b, 0, perm.p, perm.n, &perm, &vol, "identity");
         c06_try(&b, 1, vol.p, vol.n, &perm, &vol, "identity");
@@ -146,16 +157,10 @@ static void scen_c06(int bases, int prefix_ops, int budget) {
         { uint8_t *m = malloc(perm.n); memcpy(m, perm.p, perm.n); m[perm.n - 6] = 0xff; m[perm.n - 5] = 0xff; c06_try(&b, 0, m, perm.n, &perm, &vol, "last-skip=ffff"); free(m); }
         /* fields the harness can locate: the context slot mask (a value the unmarshal code restricts to two legal ones) is found by
            taking the blob twice with the two legal values; every other value must be refused, and what is accepted must work */
-        if (h % 2 == 0) { unsigned m0 = verif_get_slotmask(); unsigned char *q1 = NULL, *q2 = NULL; uint32_t l1 = 0, l2 = 0;
-            verif_set_slotmask(0xffff); TPM_RESULT g1 = TPMLIB_GetState(TPMLIB_STATE_VOLATILE, &q1, &l1);
-            verif_set_slotmask(0x00ff); TPM_RESULT g2 = TPMLIB_GetState(TPMLIB_STATE_VOLATILE, &q2, &l2); verif_set_slotmask(m0);
-            if (!g1 && !g2 && l1 == l2 && l1 > 22) { long at = -1; int nd = 0; for (uint32_t k = 0; k + 20 < l1; k++) if (q1[k] != q2[k]) { if (at < 0) at = k; nd++; }
-                if (at >= 0 && nd == 1) { static const uint16_t V[] = {0x0fff, 0x7fff, 0x01ff, 0xff00, 0x0000, 0x0001, 0x8000, 0xfffe, 0x00fe, 0x00ff, 0xffff, 0x03ff};
-                    for (int vi = 0; vi < 12; vi++) { uint8_t *m = malloc(vol.n); memcpy(m, vol.p, vol.n); long o = q1[at] == 0xff && at > 0 && q1[at - 1] == 0xff ? at - 1 : at;   /* the high byte differs: the field starts there */
-                        if ((uint32_t)o + 2 <= vol.n - 20 && l1 == vol.n) { m[o] = V[vi] >> 8; m[o + 1] = (uint8_t)V[vi]; SHA1(m, vol.n - 20, m + vol.n - 20);
-                            char d[48]; snprintf(d, sizeof d, "slotmask=%u+sum", V[vi]); c06_try(&b, 1, m, vol.n, &perm, &vol, d); }
-                        free(m); } } }
-            free(q1); free(q2); }
+        if (slot_at >= 0) { static const uint16_t V[] = {0x0fff, 0x7fff, 0x01ff, 0xff00, 0x0000, 0x0001, 0x8000, 0xfffe, 0x00fe, 0x00ff, 0xffff, 0x03ff};
+            for (int vi = 0; vi < 12; vi++) { uint8_t *m = malloc(vol.n); memcpy(m, vol.p, vol.n);
+                m[slot_at] = V[vi] >> 8; m[slot_at + 1] = (uint8_t)V[vi]; SHA1(m, vol.n - 20, m + vol.n - 20);
+                char d[48]; snprintf(d, sizeof d, "slotmask=%u+sum", V[vi]); c06_try(&b, 1, m, vol.n, &perm, &vol, d); free(m); } }
         /* one type offered as the other */
         c06_try(&b, 0, vol.p, vol.n, &perm, &vol, "vol-as-perm");
         c06_try(&b, 1, perm.p, perm.n, &perm, &vol, "perm-as-vol");
